@@ -3,7 +3,7 @@ from fractions import Fraction as F
 
 from .. import thr_common as tc
 from ..core import Problem, register
-from .c04 import ThresholdCheck, common_judge, stash_tags
+from .c04 import ThresholdCheck, common_judge, mark_f18, stash_tags
 
 TOL = tc.TOL
 LP_TOL = 1e-6
@@ -64,7 +64,7 @@ class CHECK(ThresholdCheck):
                 probs.append(p)
         view = ctx.get("view")
         if view is None or "rules" not in o:
-            return probs
+            return tc.cap_when_tie_broken(mark_f18(case, o, probs))
         gs, rows = tc.groups_of(case)
         N = case["grid"]
         eo = case["constraint"] == "equalized_odds"
@@ -108,4 +108,4 @@ class CHECK(ThresholdCheck):
         if m1 is not None and abs(float(m1["objective"]) - achieved) > TOL and not parity_broken:
             probs.append(Problem("correspondence", f"achieved objective {achieved:.12g} vs model objective at the "
                                  f"implementation's grid index {float(m1['objective']):.12g}", "C05.objective"))
-        return probs
+        return tc.cap_when_tie_broken(mark_f18(case, o, probs))
